@@ -26,6 +26,33 @@ CHECKS = {
         "(needs MI_VISIT_ABANDONED; see C09). Single-threaded histories (no pending cross-thread frees, as the property assumes).",
    technique="Coq proof over page model (invariant by induction) + API-trace differential with shadow oracle",
    design="3/C12"),
+ "C01": dict(
+   text="Machine-checked proof (Coq) of the layer theorems under the property: the page invariant (three free lists duplicate-free, disjoint, inside "
+        "capacity, used+|free|+|local_free| = capacity) holds in every reachable page state (induction over all sequences of malloc/free/remote "
+        "free/collect/extend); allocation returns a block that is not live and changes no other block's status (page_pop_fresh, frame lemmas, "
+        "page_no_double_handout); blocks of a page occupy pairwise disjoint ranges inside the page area; plus the address arithmetic of C16. "
+        "Tie: API traces over every entry point on the real allocator with a shadow table (no overlap with any live block, whole usable range "
+        "writable, byte pattern of every live block intact, zero-size unique) and every touched page dumped and checked against page_inv_b and the "
+        "model's transition relation. NAMED PARTIAL: the composition of page, span and arena layers into one refinement theorem (C01_refines_map) is "
+        "not machine-checked; cross-page/cross-segment disjointness rests on the overlap oracle and the span-layer theorems where present.",
+   note="Trusted: Coq kernel, extraction, OCaml/C drivers, trace generator. MMU behaviour (accessibility) is observed, not modelled. Single-threaded "
+        "histories (the concurrent case is C02).",
+   technique="Coq proof (inductive invariant over page model) + API-trace differential with shadow oracle; layer theorems, composition partial",
+   design="3/C01"),
+ "C19": dict(
+   text="Machine-checked proof (Coq 8.16.1) over a symbol table regenerated on every run from the shared library built from /repo's working tree "
+        "(nm -D + gcc -E of src/alloc.c): every C and C++ allocation entry point of Linux/glibc x86-64 (44 required names incl. all operator "
+        "new/delete forms and the __libc_* hooks) is exported, resolves to a mi_ function of its class and documented failure convention, receives "
+        "its arguments in the right positions, and all targets are defined in the one library (override_ok table = true by computation, with its "
+        "Prop unfolding). cross_entry_point_ok: for every (allocating, releasing/resizing/querying) entry-point pair a block from the first is "
+        "accepted by the second, under hypothesis H (one allocator instance whose consuming mi_ functions accept blocks of its allocating ones -- "
+        "C01/C03/C05). Implementation side: C and C++17 programs without mimalloc headers, LD_PRELOADed and statically overridden, check heap-region "
+        "membership, usable size, alignment, zero fill, documented return values/errno and all 378 cross pairs.",
+   note="Trusted: Coq kernel+vm_compute; tools/gen_override.py (regex over preprocessed source, fails loudly) and nm; dynamic/static linker resolution "
+        "order (observed via dladdr, not proved); semantics of the mi_ targets (hypothesis H). Throwing operator new aborts and never calls the "
+        "new_handler in the C build of the library (observed, documented upstream).",
+   technique="Coq decision procedure over a regenerated finite table + conditional cross-pair theorem + preload/static differential harness",
+   design="3/C19"),
 }
 NOT_YET = {}
 def main():
